@@ -39,6 +39,9 @@ type ListCase struct {
 	Dups       []int    `json:"dups,omitempty"` // indices of entries listed a second time
 	Repeat     int      `json:"repeat,omitempty"`
 	GoMaxProcs int      `json:"gomaxprocs"`
+	// Shared: after the single call, four goroutines hash the very same slice at once (callers may
+	// share a list; Hash only reads it): all must agree with the single call, and the list is unchanged
+	Shared bool `json:"shared,omitempty"`
 }
 
 func (c ListCase) size() int { return len(c.Kinds) + len(c.Dups) }
@@ -189,6 +192,12 @@ func execList(s *ev.Shard, root string, c ListCase) *rp.Fail {
 			}
 		}()
 	}
+	if c.Shared {
+		// not in sorted order, so that any reordering of the caller's slice shows
+		for i, j := 0, len(paths)-1; i < j; i, j = i+1, j-1 {
+			paths[i], paths[j] = paths[j], paths[i]
+		}
+	}
 	runtime.Gosched()
 	baseline := runtime.NumGoroutine()
 	digest, herr := hash.New().Hash(paths)
@@ -211,6 +220,45 @@ func execList(s *ev.Shard, root string, c ListCase) *rp.Fail {
 		return &rp.Fail{Sig: "digest-despite-unopenable-file", Size: size, Msg: fmt.Sprintf("%s: contains a path that cannot be opened but a digest (%s) was returned instead of an error", desc, digest)}
 	case nFaulty == 0 && nVanish == 0 && herr != nil:
 		return &rp.Fail{Sig: "error-on-readable-list", Size: size, Msg: fmt.Sprintf("%s: every entry is a readable file or a directory but Hash failed: %v", desc, herr)}
+	}
+	if c.Shared && nVanish == 0 && len(paths) > 0 {
+		type out struct {
+			d string
+			e error
+		}
+		res := make([]out, 4)
+		// the four callers share one slice, handed over in an order of its own (the single call above got another)
+		shared := make([]string, len(paths))
+		for i, p := range paths {
+			shared[(i*7+3)%len(paths)] = p
+		}
+		if len(paths)%7 == 0 {
+			copy(shared, paths)
+			for i, j := 0, len(shared)-1; i < j; i, j = i+1, j-1 {
+				shared[i], shared[j] = shared[j], shared[i]
+			}
+		}
+		var cw sync.WaitGroup
+		for g := 0; g < 4; g++ {
+			cw.Add(1)
+			go func(g int) {
+				defer cw.Done()
+				d, e := hash.New().Hash(shared)
+				res[g] = out{d, e}
+			}(g)
+		}
+		cw.Wait()
+		for g, r := range res {
+			if (r.e == nil) != (herr == nil) || r.d != digest {
+				return &rp.Fail{Sig: "concurrent-calls-disagree", Size: size, Msg: fmt.Sprintf("%s: a single call gave (%q, %v); one of four concurrent calls on the same list gave (%q, %v) [call %d]", desc, digest, herr, r.d, r.e, g)}
+			}
+		}
+		if _, ok := settle(baseline, 5*time.Second); !ok {
+			return &rp.Fail{Sig: "goroutine-leak", Size: size, Msg: fmt.Sprintf("%s: goroutines left behind by four concurrent calls", desc)}
+		}
+		if s != nil {
+			s.Class("four_concurrent_calls_on_one_list")
+		}
 	}
 	if s != nil {
 		if herr != nil {
